@@ -49,6 +49,7 @@ enum Kind : uint8_t { ADD, REM, DEP, FEE, STAGE, COMMIT, ABORT, TRIM, DOWORK, DE
 struct Op {
     uint8_t kind, a, b;
     bool operator==(const Op&) const = default;
+    auto operator<=>(const Op&) const = default;
 };
 static std::string op_str(const Op& o, const Cfg& c)
 {
@@ -906,7 +907,7 @@ int main(int argc, char** argv)
     mkdir(scratch.c_str(), 0700);
 
     struct PlanItem { int cfg; int depth; };
-    std::vector<PlanItem> plan = big ? std::vector<PlanItem>{{0, 7}, {1, 6}, {2, 6}, {3, 6}} : std::vector<PlanItem>{{0, 5}, {1, 4}, {2, 4}};
+    std::vector<PlanItem> plan = big ? std::vector<PlanItem>{{0, 5}, {1, 5}, {2, 5}, {3, 4}} : std::vector<PlanItem>{{0, 4}, {1, 3}, {2, 3}};
     if (const char* e = getenv("C25_DEPTH")) for (auto& p : plan) p.depth = atoi(e);
 
     Stats total;
@@ -919,6 +920,52 @@ int main(int argc, char** argv)
         std::set<std::pair<uint64_t, uint64_t>> seen;
         uint64_t cfg_states = 1, cfg_trans = 0;
         int completed_depth = 0;
+        // Seeds: besides the empty graph, BFS also starts from every dependency shape (transitively closed DAG with
+        // edges low->high id) on 1..3 transactions, in two (fee,size) patterns, built by Add.. then Dep.. calls.
+        {
+            std::vector<Node> seed_parents;
+            std::vector<std::pair<uint32_t, Op>> seed_tasks;
+            std::set<History> uniq;
+            for (int n = 1; n <= 3; n++) {
+                int npairs = n * (n - 1) / 2;
+                for (unsigned e = 0; e < (1u << npairs); e++) {
+                    // keep transitively reduced representatives only: skip edge sets containing an implied edge
+                    bool edge[3][3] = {};
+                    int b = 0;
+                    for (int j = 1; j < n; j++) for (int i = 0; i < j; i++, b++) edge[i][j] = e >> b & 1;
+                    if (n == 3 && edge[0][1] && edge[1][2] && edge[0][2]) continue;
+                    for (int pat = 0; pat < 2; pat++) {
+                        History h;
+                        for (int i = 0; i < n; i++) {
+                            uint8_t f = pat ? (i & 1) : 0;                 // fees 1,1,1 | 1,5,1
+                            uint8_t z = pat ? (i < 2 ? 1 : 0) : 0;         // sizes 1,1,1 | 4,4,1
+                            h.push_back({ADD, f, z});
+                        }
+                        for (int j = 1; j < n; j++) for (int i = 0; i < j; i++) if (edge[i][j]) h.push_back({DEP, (uint8_t)i, (uint8_t)j});
+                        if (!uniq.insert(h).second) continue;
+                        Node par;
+                        par.h.assign(h.begin(), h.end() - 1);
+                        seed_parents.push_back(par);
+                        seed_tasks.push_back({(uint32_t)seed_parents.size() - 1, h.back()});
+                    }
+                }
+            }
+            Merged mg;
+            run_tasks(cfg, seed_parents, seed_tasks, mg, total, scratch);
+            size_t nseeds = 0;
+            for (size_t t = 0; t < seed_tasks.size(); t++) {
+                if (mg.have[t] != 1 || mg.outs[t].nfails) continue;
+                cfg_trans++;
+                if (!seen.insert({mg.outs[t].hi, mg.outs[t].lo}).second) continue;
+                Node nn;
+                nn.h = seed_parents[seed_tasks[t].first].h;
+                nn.h.push_back(seed_tasks[t].second);
+                frontier.push_back(std::move(nn));
+                nseeds++;
+            }
+            cfg_states += nseeds;
+            printf("[%s] %zu seed histories (%zu distinct states) + empty graph\n", cfg.name, seed_tasks.size(), nseeds);
+        }
         for (int d = 1; d <= pi.depth; d++) {
             if (vx::deadline_reached()) { complete = false; break; }
             std::vector<std::pair<uint32_t, Op>> tasks;
